@@ -345,8 +345,8 @@ var ratioPool = []string{
 	"10000000000000000000", "999999999999999999", "1000000000000000001", "1", "2500000000000000000",
 }
 
-var symPool = []string{"abc", "btc", "eth", "usdt", "kitty2", "longsymbol0123456789", "z23456789012345678901234567890123456789012345678901234567890123"}
-var muPool = []string{"uabc", "ubtc", "wei", "usdt", "abc", "satoshi", "m23456789012345678901234567890123456789012345678901234567890123"}
+var symPool = []string{"abc", "abcx", "btc", "eth", "usdt", "kitty2", "longsymbol0123456789", "z23456789012345678901234567890123456789012345678901234567890123"}
+var muPool = []string{"uabc", "uabcx", "ubtc", "wei", "usdt", "abc", "satoshi", "m23456789012345678901234567890123456789012345678901234567890123"}
 var badDenoms = []string{"ab", "Abc", "ibcabc", "pegx", "1ab", "tibcz", "lptabc", "htltx", "a-b", "z234567890123456789012345678901234567890123456789012345678901234"}
 
 // ResetLine draws the configuration of one history: params, initial stake balances and the swap registry.
